@@ -177,7 +177,14 @@ fn scenario(sc: &serde_json::Value) {
             };
             let mut decoded_upto = 0usize;
             let mut n_msgs = 0u64;
-            while let Ok(value) = response_rx.recv() {
+            while let Ok(mut value) = response_rx.recv() {
+                // `eval-msec` is the one field that reads the real clock; its digits
+                // would change the byte count and with it the number of codec draws.
+                if let Value::Dict(d) = &mut value {
+                    if let Some(v) = d.get_mut(b"eval-msec".as_slice()) {
+                        *v = Value::Int(0);
+                    }
+                }
                 if let Err(e) = write_message(&mut w, &value) {
                     log_event(serde_json::json!({"k": "WRITE-ERROR", "err": e.to_string()}));
                     return;
